@@ -65,7 +65,7 @@ def build_world(scenario, seed, trace=False, worker_hook=None):
 
 
 def run_scenario(scenario, seed, monitors=(), trace=False, settle=None, worker_hook=None, before_run=None,
-                 horizon=None):
+                 horizon=None, settle_if=None):
     w = build_world(scenario, seed, trace, worker_hook)
     res = Result(w, scenario)
     sim = w.sim
@@ -112,7 +112,7 @@ def run_scenario(scenario, seed, monitors=(), trace=False, settle=None, worker_h
     if before_run is not None:
         before_run(res)
     res.end_reason = w.run_quiescent(limit=horizon)
-    if settle:
+    if settle and (settle_if is None or settle_if(res)):
         # let late timers (orphan retention etc.) run
         w.run_for(settle)
         res.end_reason = w.run_quiescent(limit=horizon)
